@@ -171,6 +171,16 @@ def main(jobs_path, out_path):
                             out.write(json.dumps(observe(p, rep, d, job["id"], (job.get("report_scenario") or {}).get(rep.fullId), job.get("rates"),
                                                               (job.get("report_fmt") or {}).get(rep.fullId),
                                                               (job.get("report_hide") or {}).get(rep.fullId, ""), job.get("task_flags"))) + "\n")
+                    # ... and one report defined through the API AFTER the project was scheduled, with a time format of its own:
+                    # the history of a report object (file or API, before or after scheduling) must not decide how it renders
+                    if job.get("api_report", True) and len(p.tasks):
+                        from scriptplan.report.report import Report, ReportFormat, ReportType
+                        api = Report(p, "api_late", "api_late", None)
+                        api.type_spec = ReportType.TASK_REPORT
+                        api["columns"] = [{"id": c, "options": {}} for c in ("id", "start", "end")]
+                        api["formats"] = [ReportFormat.JSON, ReportFormat.CSV]
+                        api["timeFormat"] = "%d.%m.%Y %H:%M"
+                        out.write(json.dumps(observe(p, api, d, job["id"], None, job.get("rates"), "%d.%m.%Y %H:%M", "", job.get("task_flags"))) + "\n")
             except Exception:  # noqa: BLE001
                 out.write(json.dumps({"id": job["id"], "error": traceback.format_exc()[-1200:]}) + "\n")
             finally:
